@@ -115,6 +115,8 @@ struct Any {
   virtual size_t npre(const Bytes& img) const = 0;
   virtual bool table_order_free() const { return false; }
   virtual std::unique_ptr<Any> result() const { throw std::invalid_argument("no result()"); }
+  // a defect of the STATE itself (visible through the public API) that makes its image unreadable; "" = none
+  virtual std::string diag() const { return ""; }
 };
 
 // Runs fn() in a forked child and returns its string; a sanitizer abort / crash of the child gives "CRASH:<code>".
@@ -350,6 +352,16 @@ template<typename T> struct EB : Any {
   }
   void upd(const std::string& item, const std::string& wt) override { s.update(Item<T>::parse(item), vh::f64_of_hex(wt)); }
   void merge(const Any& o) override { const EB* p = dynamic_cast<const EB*>(&o); if (!p) throw std::invalid_argument("kind"); s.merge(p->s); }
+  // the image does not store the item count: the reader takes floor(c) full items and a partial item iff c has a fraction
+  std::string diag() const override {
+    if (s.is_empty()) return "";
+    size_t nfull, nwith;
+    { FixedDraw d(std::nextafter(1.0, 0.0)); nfull = s.get_result().size(); }
+    { FixedDraw d(0.0); nwith = s.get_result().size(); }
+    double ci; double fr = std::modf(s.get_c(), &ci);
+    if ((double)nfull != ci || (nwith == nfull + 1) != (fr != 0.0)) return "state-items-ne-floor-c";
+    return "";
+  }
   Bytes ser(unsigned h) const override { auto v = s.serialize(h); return Bytes(v.begin(), v.end()); }
   std::string ser_stream() const override { return ser_to_string(s); }
   size_t ssize() const override { return s.get_serialized_size_bytes(); }
@@ -420,8 +432,10 @@ static std::string c09_checks(const Any& o, const Bytes& img) {
     } catch (const std::exception&) { bad.push_back("header" + std::to_string(h) + "-throws"); }
   }
   std::unique_ptr<Any> rb, rs;
+  const std::string dg = o.diag();
+  if (!dg.empty()) bad.push_back(dg);        // the restore failures below are then consequences of this state defect
   try { rb = o.from_bytes(img.data(), img.size()); }
-  catch (const std::exception&) { bad.push_back("restore-bytes-throws"); }
+  catch (const std::exception&) { if (dg.empty()) bad.push_back("restore-bytes-throws"); }
   auto crashed = [](const std::string& c) { return c.compare(0, 6, "CRASH:") == 0; };   // already recorded in g_notes
   if (rb) { try { std::string c = rb->content(); if (c != want && !crashed(c)) bad.push_back("restore-bytes-content"); } catch (const std::exception&) { bad.push_back("restored-bytes-api-throws"); } }
   try {
@@ -429,7 +443,7 @@ static std::string c09_checks(const Any& o, const Bytes& img) {
     std::istringstream is(withsent, std::ios::binary);
     rs = o.from_stream(is);
     if (!is.good() || (size_t)is.tellg() != st.size()) bad.push_back("stream-position");
-  } catch (const std::exception&) { bad.push_back("restore-stream-throws"); }
+  } catch (const std::exception&) { if (dg.empty()) bad.push_back("restore-stream-throws"); }
   if (rs) { try { std::string c = rs->content(); if (c != want && !crashed(c)) bad.push_back("restore-stream-content"); } catch (const std::exception&) { bad.push_back("restored-stream-api-throws"); } }
   for (int which = 0; which < 2; ++which) {
     Any* r = which == 0 ? rb.get() : rs.get();
@@ -667,6 +681,7 @@ static std::string step1(const std::vector<std::string>& w) {
   if (op == "result") { auto r = objs.at(atoi(w.at(1).c_str()))->result(); objs[atoi(w.at(2).c_str())] = std::move(r); return "ok"; }
   if (op == "fork") {
     Any& o = *objs.at(atoi(w.at(1).c_str()));
+    if (!o.diag().empty()) return "DIAG " + o.diag();      // the state itself is defective (reported by the next `ser`)
     std::unique_ptr<Any> r;
     if (w.at(3) == "b") { Bytes b = o.ser(0); r = o.from_bytes(b.data(), b.size()); }
     else { std::string s = o.ser_stream(); std::istringstream is(s, std::ios::binary); r = o.from_stream(is); }
